@@ -4,39 +4,39 @@ empty is not claimed."""
 PROPS = {
     "C01": dict(
         rules=["R-CALC", "R-SLOT", "R-ORDER", "R-REACH", "R-PROV", "R-ENTRY", "R-LISTAPI", "R-ID", "R-SNAP", "R-CHAIN", "R-SUMMARY", "R-WRITE", "R-NOOP", "R-OBJID", "R-CACHE:model", "R-EDGE", "R-LATEBIND:update"],
-        decided="necessary conditions for incremental = from-scratch: rule/slot tables, def-before-use in the schedule, class-level reachability for link edits, value-level provenance completeness (per branch) for numeric edits, ordering guards of the three chain builders, single entry point for edits, no inherited list mutator, no-op skip only on equality, injective ids (values and objects), operator summaries valid on every path, snapshot order of the before/after totals, link bookkeeping written only by its owners, the system looked up on every object of a recomputation chain, memo tables keyed completely",
+        decided="necessary conditions for incremental = from-scratch: rule/slot tables, def-before-use in the schedule, class-level reachability for link edits, value-level provenance completeness (per branch) for numeric edits, ordering guards of the three chain builders, single entry point for edits, no inherited list mutator, no-op skip only on equality, injective ids (values and objects), operator summaries valid on every path, snapshot order of the before/after totals, link bookkeeping written only by its owners, the system looked up on every object of a recomputation chain, memo tables keyed completely; a value method summarised as returning a new object never returns self; no closure created in a loop of the update machinery outlives its iteration while reading a rebound variable",
         not_decided="the numeric equality edited-vs-rebuilt; instance-level reachability through pre-change links"),
     "C02": dict(
         rules=["R-AGG", "R-DEG", "R-ACCUM", "R-LEAK", "R-CHAIN:system", "R-ONCE", "R-PROV:footprint", "R-LATEBIND:model", "R-GROUPBY:model"],
-        decided="structure of the aggregation: the four category dicts agree on keys, collections, attributes and deduplication; every footprint-bearing class is covered; footprint = energy x intensity (degree rows); accumulator discipline and no loop variable read after its loop in model code; the system (whose stored total is the only aggregate that is not recomputed on the fly) is appended to every recomputation chain, looked up on every object of the chain",
+        decided="structure of the aggregation: the four category dicts agree on keys, collections, attributes and deduplication; every footprint-bearing class is covered; footprint = energy x intensity (degree rows); accumulator discipline and no loop variable read after its loop in model code; the system (whose stored total is the only aggregate that is not recomputed on the fly) is appended to every recomputation chain, looked up on every object of the chain; the total does not pair the entries of the two footprint dictionaries by position unless both are built over the same collection; footprints have complete provenance (a live edit reaches the stored total); no itertools.groupby on an unsorted collection",
         not_decided="finiteness and sign of the values"),
     "C03": dict(
         rules=["R-SHIFT", "R-FILL", "R-PERUP", "R-DEG", "R-DELAY", "R-ACCUM", "R-ZEROCUT", "R-ONCE", "R-REST", "R-LATEBIND:model", "R-GROUPBY:model"],
-        decided="index shift (freq=) not positional shift, zero-fill on series addition/multiplication, per-pattern writer/reader collection agreement, linearity of load quantities in the traffic series, delay increased after a step's jobs are placed and steps enumerated from the uj_steps list itself (order and multiplicity), accumulators only added to (never overwritten, compounded or scaled inside the loop), empty-value shortcuts taken only on emptiness / == 0 tests (never on an ordering test that would swallow negative data_stored), a collection that is summed over holds each object once (navigation properties that concatenate their containers' lists are de-duplicated)",
+        decided="index shift (freq=) not positional shift, zero-fill on series addition/multiplication, per-pattern writer/reader collection agreement, linearity of load quantities in the traffic series, delay increased after a step's jobs are placed and steps enumerated from the uj_steps list itself (order and multiplicity), accumulators only added to (never overwritten, compounded or scaled inside the loop), empty-value shortcuts taken only on emptiness / == 0 tests (never on an ordering test that would swallow negative data_stored), a collection that is summed over holds each object once (navigation properties that concatenate their containers' lists are de-duplicated); a duration truncated downwards has its remainder used or is the prescribed whole-hour shift; the steps of a journey are enumerated from the list itself, also through helpers (never from a dict keyed by step)",
         not_decided="the conservation identities themselves (floor/ceil hour arithmetic, totals)"),
     "C04": dict(
         rules=["R-RAW2", "R-BOUND", "R-CUMUL", "R-WRITE:infra", "R-PROV:infra", "R-LATEBIND:model", "R-GROUPBY:model"],
-        decided="two-series raw array operations are aligned and unit-fixed (no positional arithmetic between two series); order-domain bounds nb >= raw, active <= nb; a fixed instance count is compared with the peak need before use; cumulative storage = running sum with the base need added first, checked before it is installed; stored data expires after its storage duration rounded up (never down) to whole hours",
+        decided="two-series raw array operations are aligned and unit-fixed (no positional arithmetic between two series); order-domain bounds nb >= raw, active <= nb; a fixed instance count is compared with the peak need before use; cumulative storage = running sum with the base need added first, checked before it is installed; stored data expires after its storage duration rounded up (never down) to whole hours; the writers' and the deleters' tests on data_stored are each other's negation; the sizing branches are found from the rule's dispatch; infrastructure rules keep no state outside their attribute and have complete provenance",
         not_decided="every >= inequality numerically; float cancellation in the storage negativity check"),
     "C05": dict(
         rules=["R-TXN:sim", "R-MIRROR", "R-ZIP", "R-WRITE", "R-REPLACE-SYM", "R-EDGE", "R-ATTACH", "R-CACHE:update", "R-LATEBIND:update"],
-        decided="exceptional exits of a simulation restore what was replaced; set/reset are mirror images; baseline/simulated lists are built in lockstep; the replace primitive has a symmetric precondition and detaches before it attaches; child registration is unconditional and every path of the attach primitive that attaches registers / that had a container deregisters; rules write only their own attribute; memo tables in the update machinery are keyed completely",
+        decided="exceptional exits of a simulation restore what was replaced; set/reset are mirror images; baseline/simulated lists are built in lockstep; the replace primitive has a symmetric precondition and detaches before it attaches; child registration is unconditional and every path of the attach primitive that attaches registers / that had a container deregisters; rules write only their own attribute; memo tables in the update machinery are keyed completely; a wrapper constructed with its container is stored by the function that built it; no late-binding closure in the update machinery",
         not_decided="identity of every object after arbitrary toggle sequences"),
     "C06": dict(
         rules=["R-ZIP", "R-TXN:date", "R-SIMDATE", "R-LOCAL", "R-TZREPLACE", "R-CACHE:update", "R-LATEBIND:update"],
-        decided="twin pairing lists are built in lockstep and every pair is linked; rejections (naive date, outside period) precede any mutation; the filter keeps hours >= the date; naive local-time indexes are localised with the pattern's zone; no aware date is re-labelled with .replace(tzinfo=); no normal exit skips the modelled-period test; a cached localised index is keyed by its time zone too",
+        decided="twin pairing lists are built in lockstep and every pair is linked; rejections (naive date, outside period) precede any mutation; the filter keeps hours >= the date; naive local-time indexes are localised with the pattern's zone; no aware date is re-labelled with .replace(tzinfo=); no normal exit skips the modelled-period test; a cached localised index is keyed by its time zone too; the filter compares timestamps with the date (a cut by position is reported); twin links have a single writer",
         not_decided="equality with the really-updated model; 'no hour before the date'"),
     "C07": dict(
         rules=["R-OPREC", "R-OPPAR", "R-INPLACE", "R-LABEL", "R-SUMMARY", "R-PAREN", "R-VALUESTORE", "R-WRITE", "R-PARENT-USED", "R-CACHE:explainable", "R-CHAIN", "R-PUREVIEW", "R-EDGE", "R-TRUTHY", "R-LATEBIND:explainable"],
-        decided="recorded operator and operand order = computed ones; parents recorded on every return path; each recorded parent is used by the value; no unrecorded in-place numeric change and no store into .value from outside; every assigned result labelled; explain() parenthesises wherever precedence requires it",
+        decided="recorded operator and operand order = computed ones; parents recorded on every return path; each recorded parent is used by the value; no unrecorded in-place numeric change and no store into .value from outside; every assigned result labelled; explain() parenthesises wherever precedence requires it; read-only views do not round model values in place; ancestor lists have a single writer; where explain() decides 'has a parent' by truth value no routinely-parent class defines __len__ / __bool__; no late-binding closure in the explainable layer",
         not_decided="numeric re-evaluation of each node"),
     "C08": dict(
         rules=["R-PROV", "R-EDGE", "R-ID", "R-ACYC", "R-SUMMARY", "R-CHAIN", "R-ATTACH", "R-LATEBIND:explainable", "R-TXN:recompute"],
-        decided="completeness (every dependency is a transitive recorded ancestor, per branch), both-ends bookkeeping has single writers, paired unconditional loops and detach-before-attach, dedup ids injective, attribute graph acyclic at class level, ordering guards of attr_updates_chain and of the de-duplications (keep last, at the last position), every path of the attach primitive registers / deregisters",
+        decided="completeness (every dependency is a transitive recorded ancestor, per branch), both-ends bookkeeping has single writers, paired unconditional loops and detach-before-attach, dedup ids injective, attribute graph acyclic at class level, ordering guards of attr_updates_chain and of the de-duplications (keep last, at the last position), every path of the attach primitive registers / deregisters; a failed recomputation restores what was already replaced (partial progress visible to the rollback); the ancestor hook answers [self] while attached",
         not_decided="correctness of attr_updates_chain on arbitrary graphs"),
     "C09": dict(
         rules=["R-COMM", "R-FILL", "R-PURE", "R-RAW2", "R-OPREC", "R-UNITS", "R-DERIVED", "R-CACHE:explainable", "R-SHIFT", "R-MAG:operators", "R-LATEBIND:explainable"],
-        decided="operand-kind dispatch symmetry of + and *, empty neutral/absorbing, zero-fill, operators do not mutate operands, no positional arithmetic between two series, custom resource units keep their own dimension, derived accessors (unit) are never cached, the shift operation moves the labels of the frame it is given (no regenerated contiguous index)",
+        decided="operand-kind dispatch symmetry of + and *, empty neutral/absorbing, zero-fill, operators do not mutate operands, no positional arithmetic between two series, custom resource units keep their own dimension, derived accessors (unit) are never cached, the shift operation moves the labels of the frame it is given (no regenerated contiguous index); no bare magnitude taken in an unfixed unit inside the operators",
         not_decided="the algebraic laws over values (pint/pandas, trusted)"),
     "C10": dict(
         rules=["R-MAG", "R-SUMMARY", "R-DERIVED", "R-LATEBIND:explainable"],
@@ -44,31 +44,31 @@ PROPS = {
         not_decided="nothing beyond pint's own correctness"),
     "C11": dict(
         rules=["R-LOCAL", "R-TZREPLACE", "R-VALUESTORE", "R-CACHE:explainable", "R-LATEBIND:tz"],
-        decided="only the UTC converter (and the simulation filter, which localises explicitly) reads the local-time series; the converter localises with the pattern's zone, keeps skipped hours, sums duplicated ones, and every definition of the returned frame on every return path comes from the per-timestamp conversion; nothing rewrites the converted series afterwards",
+        decided="only the UTC converter (and the simulation filter, which localises explicitly) reads the local-time series; the converter localises with the pattern's zone, keeps skipped hours, sums duplicated ones, and every definition of the returned frame on every return path comes from the per-timestamp conversion; nothing rewrites the converted series afterwards; between convert_to_utc and the stored attribute no method re-grids or cuts the frame; the time zones of the predefined countries are not produced by late-binding closures",
         not_decided="totals, DST merging, offsets (pandas/pytz runtime semantics)"),
     "C12": dict(
         rules=["R-DEG", "R-LEAK", "R-PROV", "R-MAG", "R-WRITE", "R-LATEBIND:model", "R-GROUPBY:model"],
-        decided="homogeneity degree of each footprint formula in each documented driver, independence rows, no loop variable read after its loop, and provenance completeness so that a live edit of a driver reaches the footprints",
+        decided="homogeneity degree of each footprint formula in each documented driver, independence rows, no loop variable read after its loop, and provenance completeness so that a live edit of a driver reaches the footprints; no bare magnitude in an unfixed unit, rules keep no hidden state (a driver edit after any history scales the footprint), no groupby on an unsorted collection",
         not_decided="floating-point exactness of k*x"),
     "C13": dict(
         rules=["R-JSON-KEYS", "R-JSON-KINDS", "R-JSON-UPG", "R-JSON-CLS", "R-JSON-ID", "R-JSON-LOAD", "R-JSON-SIB", "R-CACHE:json", "R-SETORDER", "R-JSON-DISPATCH", "R-LATEBIND:json", "R-JSON-WALK"],
-        decided="writer/reader key and kind agreement, to_json dispatch covers every attribute kind, sibling to_json signatures agree, scalar values written without rounding and hourly ones with 3 decimals, loader converts unconditionally and after the version upgrade, ids preserved, upgrade-handler table total, class table covers reachable classes, registries / memo tables used while loading are keyed by everything the stored object depends on",
+        decided="writer/reader key and kind agreement, to_json dispatch covers every attribute kind, sibling to_json signatures agree, scalar values written without rounding and hourly ones with 3 decimals, loader converts unconditionally and after the version upgrade, ids preserved, upgrade-handler table total, class table covers reachable classes, registries / memo tables used while loading are keyed by everything the stored object depends on; link lists handed to the loader never take their order from a set; model code does not dispatch on a value class the loader does not rebuild; the writer's reachability walk follows links only (no recursive descent into bookkeeping containers); a wrapper built with its container is stored by its maker",
         not_decided="numeric equality after reload, byte-equality of re-export, liveness of the loaded system"),
     "C14": dict(
-        rules=["R-TXN:val", "R-VAL-FORMS", "R-VAL-SIB", "R-VAL-DEF", "R-VAL-AUTH", "R-ENTRY", "R-RULE-TXN", "R-LATEBIND:update", "R-TXN:recompute"],
-        decided="validation precedes mutation or is rolled back; validator dispatch covers every annotation form; the three allowed-values refusals raise; both entry paths call both validators; defaults table covers quantity parameters; __setattr__ overrides delegate on every path; inside the loop over the changes every path validates or has a None value; the controlling / dependent value of a conditional list is read from the object being validated",
+        rules=["R-TXN:val", "R-VAL-FORMS", "R-VAL-SIB", "R-VAL-DEF", "R-VAL-AUTH", "R-ENTRY", "R-RULE-TXN", "R-LATEBIND:update", "R-TXN:recompute", "R-ATTACH"],
+        decided="validation precedes mutation or is rolled back; validator dispatch covers every annotation form; the three allowed-values refusals raise; both entry paths call both validators; defaults table covers quantity parameters; __setattr__ overrides delegate on every path; inside the loop over the changes every path validates or has a None value; the controlling / dependent value of a conditional list is read from the object being validated; the replace primitive refuses a value that belongs to another object before its first mutation, and the rollback only undoes replacements that happened (F20, fixed); a rule that refuses does so before it assigns; no late-binding closure among the checks registered per change",
         not_decided="nothing stated as undecided; the checks are structural"),
     "C15": dict(
         rules=["R-TXN:recompute", "R-EDGE", "R-RULE-TXN", "R-CACHE:update", "R-WRITE", "R-LATEBIND:update"],
-        decided="an exception leaving the recompute loop restores every value already replaced (the handler sees partial progress); no path of a rule assigns its attribute and raises afterwards; re-attachment registers children unconditionally; rules keep no state outside their calculated attribute (nothing a rollback would miss)",
+        decided="an exception leaving the recompute loop restores every value already replaced (the handler sees partial progress); no path of a rule assigns its attribute and raises afterwards; re-attachment registers children unconditionally; rules keep no state outside their calculated attribute (nothing a rollback would miss); the rollback only undoes replacements that happened",
         not_decided="behaviour of arbitrary later histories"),
     "C16": dict(
         rules=["R-LISTAPI", "R-LISTPAIR", "R-LISTSIB", "R-LIVE", "R-REV", "R-EDGE", "R-GUARD", "R-NOOP", "R-OBJID", "R-ATTACH", "R-SETORDER", "R-LATEBIND:update"],
-        decided="list-API exhaustiveness, attach/detach pairing per mutator, shadow-copy/real-op agreement, receiver typestate after a mutator, reverse look-ups derived not stored, single append-only writers of link bookkeeping, no-op skip only on equality (and list equality not overridden by a set / length comparison), unique object ids, delete guard and one-system check ordering and reachability from the edit path",
+        decided="list-API exhaustiveness, attach/detach pairing per mutator, shadow-copy/real-op agreement, receiver typestate after a mutator, reverse look-ups derived not stored, single append-only writers of link bookkeeping, no-op skip only on equality (and list equality not overridden by a set / length comparison), unique object ids, delete guard and one-system check ordering and reachability from the edit path; `*= n` replays n-1 extensions of a snapshot and empties for n <= 0, extend iterates over a snapshot of its argument (F18, F19, fixed); link lists never ordered by a set; wrappers born attached are stored by their maker",
         not_decided="list-content equivalence with Python lists for every operation sequence"),
     "C17": dict(
         rules=["R-CALC", "R-PROV", "R-ORDER", "R-PLACEHOLDER", "R-SIB-JOB", "R-SERV", "R-DEG", "R-REACH", "R-PARENT-USED", "R-CACHE:model", "R-WRITE:builder", "R-LATEBIND:model"],
-        decided="builder rule tables, provenance (per branch) and schedule; constant placeholders are calculated; each recorded parent of a looked-up value is used by the lookup; Job/ServiceJob agree; server accounts for services; a class that looks up its holders' holders is named by those holders' own dependents list (a freshly linked service reaches its server); the schedule is checked against whatever class list the chain optimiser ranks by; the two stated builder formulas have the stated shape",
+        decided="builder rule tables, provenance (per branch) and schedule; constant placeholders are calculated; each recorded parent of a looked-up value is used by the lookup; Job/ServiceJob agree; server accounts for services; a class that looks up its holders' holders is named by those holders' own dependents list (a freshly linked service reaches its server); the schedule is checked against whatever class list the chain optimiser ranks by; the two stated builder formulas have the stated shape; every builder rule assigns its attribute and nothing else; no late-binding closure in the builders",
         not_decided="numeric equality builder-model vs plain-model"),
     "C18": dict(
         rules=["R-ORDER", "R-WRITE", "R-ACYC", "R-INPLACE", "R-PUREVIEW", "R-VALUESTORE", "R-CHAIN", "R-LATEBIND:model"],
@@ -76,10 +76,10 @@ PROPS = {
         not_decided="determinism of pint/pandas (trusted)"),
     "C19": dict(
         rules=["R-SEL", "R-IDFLOW", "R-LEAK", "R-ACCUM", "R-OBJID", "R-LASTWINS", "R-SETORDER", "R-LATEBIND:model", "R-GROUPBY:model"],
-        decided="positional selection from hash-ordered collections only at proven-singleton sites; identity never flows into values; object ids unique per object; no loop variable read after its loop, no order-dependent accumulation (scaling inside a loop) and no last-element-wins overwrite inside loops over set-ordered collections",
+        decided="positional selection from hash-ordered collections only at proven-singleton sites; identity never flows into values; object ids unique per object; no loop variable read after its loop, no order-dependent accumulation (scaling inside a loop) and no last-element-wins overwrite inside loops over set-ordered collections; a positional selection from a collection whose order comes, through grouping or filtering, from a hash-ordered one is allowed only for what the group is keyed by; link lists never ordered by a set; no groupby on an unsorted collection",
         not_decided="last-ulp effects of summation order over set-ordered collections (listed, not alarmed)"),
     "C20": dict(
         rules=["R-THREAD", "R-CACHE:time", "R-TRUNC", "R-LATEBIND:time", "R-ORDEFAULT"],
-        decided="every builder threads start_date, pint_unit and its value parameters into the frame it returns; every date_range starts at start_date and is hourly; what decides an hour is read from its timestamp, not its position; hour counts are not obtained by truncating a converted float duration (F17, fixed); memo tables / cached results are keyed completely and not mutated",
+        decided="every builder threads start_date, pint_unit and its value parameters into the frame it returns; every date_range starts at start_date and is hourly; what decides an hour is read from its timestamp, not its position; hour counts are not obtained by truncating a converted float duration (F17, fixed); memo tables / cached results are keyed completely and not mutated; no `value or default` on a numeric builder parameter",
         not_decided="calendar logic, lengths (beyond the truncation clause), leap years (pandas date_range semantics)"),
 }
